@@ -75,6 +75,10 @@ def at_scale_case(ctx, g, rng):
     n = rng.choice([1500, 6000]) if ctx.tier == "thorough" else 1100
     long_id = "x" * rng.choice([300, 5000]) + ":y"
     refs = [api.Reference(prefix=rng.choice(PFX), identifier=rng.choice(IDS + [long_id, str(i)])) for i in range(60)]
+    # ... and long prefixes (a URI-like or generated namespace name of a hundred or a thousand characters is a prefix
+    # like any other as long as it does not contain the separator - seed C15-W: only the head of the string searched)
+    long_refs = [api.Reference(prefix=rng.choice("pé[") + "q" * (k - 1), identifier=rng.choice(IDS + [long_id])) for k in (63, 64, 65, 127, 128, 129, 255, 256, 257, 1000, 5000)]
+    refs += long_refs
     triples = [Triple(subject=rng.choice(refs), predicate=rng.choice(refs), object=rng.choice(refs)) for _ in range(n)]
     want = [(t.subject.pair, t.predicate.pair, t.object.pair) for t in triples]
     for name in ("big.tsv", "big.tsv.gz"):
@@ -107,7 +111,7 @@ def at_scale_case(ctx, g, rng):
                   triples_written=len(bwant), triples_read=len(bgot) if isinstance(bgot, list) else bgot)
     bpath.unlink(missing_ok=True)
     # the parse / print laws on long values
-    for r in rng.sample(refs, k=10):
+    for r in rng.sample(refs, k=10) + long_refs:
         evaluated("ref:print-parse")
         if r.curie != f"{r.prefix}:{r.identifier}" or call(api.Reference.from_curie, r.curie) != ("ret", r) or hash(r) != hash(api.NamableReference(prefix=r.prefix, identifier=r.identifier, name="n")):
             violation(["C15"], "ref:print-parse", "does-not-print-as-prefix-colon-identifier", prefix=r.prefix, identifier=r.identifier[:50], curie=r.curie[:80])
